@@ -32,10 +32,11 @@ Pad(cs) ==
       nn == Len(cs.s.nIn)
       ng == Len(cs.s.gNodes)
   IN [cs EXCEPT !.sub = PadTo(@, nn, <<>>), !.ty = PadTo(@, nv, ""), !.sh = PadTo(@, nv, NoShape),
+                !.dn = PadTo(@, nv, <<>>),
                 !.md = PadTo(@, nv, {}), !.mt = PadTo(@, nv, {}), !.nmd = PadTo(@, nn, {}),
                 !.nat = PadTo(@, nn, {}), !.gmd = PadTo(@, ng, {})]
 
-EmptyCS(s) == Pad([s |-> s, sub |-> <<>>, ty |-> <<>>, sh |-> <<>>, md |-> <<>>, mt |-> <<>>,
+EmptyCS(s) == Pad([s |-> s, sub |-> <<>>, ty |-> <<>>, sh |-> <<>>, dn |-> <<>>, md |-> <<>>, mt |-> <<>>,
                    nmd |-> <<>>, nat |-> <<>>, gmd |-> <<>>])
 
 COk(cs) == [s |-> cs, out |-> "ok"]
@@ -56,7 +57,7 @@ MapFresh(acc, v) ==   \* _clone_or_get_value
            s1 == AddFreshVals(acc.cs.s, 1)
            s2 == [s1 EXCEPT !.vName[nv + 1] = acc.cs.s.vName[v], !.vConst[nv + 1] = acc.cs.s.vConst[v]]
            c1 == Pad([acc.cs EXCEPT !.s = s2])
-           c2 == [c1 EXCEPT !.ty[nv + 1] = acc.cs.ty[v], !.sh[nv + 1] = acc.cs.sh[v],
+           c2 == [c1 EXCEPT !.ty[nv + 1] = acc.cs.ty[v], !.sh[nv + 1] = acc.cs.sh[v], !.dn[nv + 1] = acc.cs.dn[v],
                             !.md[nv + 1] = acc.cs.md[v], !.mt[nv + 1] = acc.cs.mt[v]]
        IN [acc EXCEPT !.cs = c2, !.vmap = [PadTo(@, nv + 1, 0) EXCEPT ![v] = nv + 1]]
 
@@ -81,6 +82,7 @@ CloneNode(acc, n, subs, allow, vmap0) ==
       c1 == Pad([cs0 EXCEPT !.s = s1])
       c2 == [c1 EXCEPT !.ty = [v \in DOMAIN @ |-> IF v > nv THEN cs0.ty[cs0.s.nOut[n][v - nv]] ELSE @[v]],
                        !.sh = [v \in DOMAIN @ |-> IF v > nv THEN cs0.sh[cs0.s.nOut[n][v - nv]] ELSE @[v]],
+                       !.dn = [v \in DOMAIN @ |-> IF v > nv THEN cs0.dn[cs0.s.nOut[n][v - nv]] ELSE @[v]],
                        !.md = [v \in DOMAIN @ |-> IF v > nv THEN cs0.md[cs0.s.nOut[n][v - nv]] ELSE @[v]],
                        !.mt = [v \in DOMAIN @ |-> IF v > nv THEN cs0.mt[cs0.s.nOut[n][v - nv]] ELSE @[v]],
                        !.sub[nn + 1] = subs, !.nmd[nn + 1] = cs0.nmd[n], !.nat[nn + 1] = cs0.nat[n]]
@@ -158,11 +160,18 @@ SetType(cs, v, t) == COk([cs EXCEPT !.ty[v] = t])
 \* without a type a tensor type is created
 IsSeqTok(t) == Len(t) > 4 /\ SubSeq(t, 1, 4) = "SEQ:"
 SetDtype(cs, v, t) == COk([cs EXCEPT !.ty[v] = IF IsSeqTok(@) THEN "SEQ:" \o t ELSE t])
-SetShape(cs, v, dims) == COk([cs EXCEPT !.sh[v] = dims])
+\* Value.shape = Shape(dims): a new shape object, no dimension has a denotation
+SetShape(cs, v, dims) == COk([cs EXCEPT !.sh[v] = dims, !.dn[v] = [x \in DOMAIN dims |-> ""]])
+\* value.shape[i] = d : in-place edit of the shape object, denotations stay
 SetDim(cs, v, i, d) ==
   IF cs.sh[v] = NoShape THEN CRej(cs, "no-shape")
   ELSE IF ~PyIdxOK(Len(cs.sh[v]), i) THEN CRej(cs, "index")
   ELSE COk([cs EXCEPT !.sh[v][PyIdx(Len(cs.sh[v]), i)] = d])
+\* value.shape.set_denotation(i, k) : in-place edit of the shape object's denotation list
+SetDenot(cs, v, i, k) ==
+  IF cs.sh[v] = NoShape THEN CRej(cs, "no-shape")
+  ELSE IF ~PyIdxOK(Len(cs.sh[v]), i) THEN CRej(cs, "index")
+  ELSE COk([cs EXCEPT !.dn[v][PyIdx(Len(cs.sh[v]), i)] = k])
 MetaPut(cs, v, k) == COk([cs EXCEPT !.md[v] = @ \cup {k}])
 ValMetaPut(cs, v, k) == COk([cs EXCEPT !.mt[v] = @ \cup {k}])
 NodeMetaPut(cs, n, k) == COk([cs EXCEPT !.nmd[n] = @ \cup {k}])
@@ -178,6 +187,7 @@ CApply(cs, c) ==
     [] c.op = "SetDtype"     -> SetDtype(cs, c.v, c.name)
     [] c.op = "SetShape"     -> SetShape(cs, c.v, c.vs)
     [] c.op = "SetDim"       -> SetDim(cs, c.v, c.i, c.j)
+    [] c.op = "SetDenot"     -> SetDenot(cs, c.v, c.i, c.name)
     [] c.op = "MetaPut"      -> MetaPut(cs, c.v, c.name)
     [] c.op = "ValMetaPut"   -> ValMetaPut(cs, c.v, c.name)
     [] c.op = "NodeMetaPut"  -> NodeMetaPut(cs, c.n, c.name)
